@@ -25,7 +25,8 @@
                              repaired: returns the parent unchanged
     `repairedC09c`  (false)  `_subset_parent` end clamp `chromosome_location.end - 1`; repaired: clamp to `.end`
                              and convert the last included position for every `end`
-    `variantFromDictDropsParent` (true)  F-C08a, `VariantInterval.from_dict` drops the parent; repaired: false
+    `variantFromDictDropsParent` (false: F-C08a is repaired in /repo 81459d6; `true` = `VariantInterval.from_dict`
+                             dropping the parent, the code before the repair)
 
   Modelled domain (the harness generates exactly this; anything else is refused by the driver):
     * all members were built on the collection's own parent (`strict_parent_compare` never fails);
@@ -226,11 +227,11 @@ def memberSeq (rp : RPar) (g : GChild) : MSeq :=
         .bases (orient g.strand (slice seq (max g.start cs - cs) (min g.stop ce - cs)))
       else .emptyLoc
 
-/-- `VariantInterval.from_dict` does not pass `parent_or_seq_chunk_parent` on (F-C08a, variants.py:180-192), and
+/-- F-C08a: `VariantInterval.from_dict` used to drop `parent_or_seq_chunk_parent` (variants.py:180-192), and
     `_initialize_location` of the rebuilt VariantIntervalCollection lifts only its own location on a chunk parent,
-    so a rebuilt variant keeps a parent-less location there; on a non-chunk parent `_reset_parent` reaches it.
-    Set to `false` when F-C08a is repaired in /repo. -/
-def variantFromDictDropsParent : Bool := true
+    so a rebuilt variant kept a parent-less location there.  REPAIRED in /repo 81459d6: the constant is `false`
+    (`true` = the code before the repair). -/
+def variantFromDictDropsParent : Bool := false
 
 def liftG (rp : RPar) (k : Kind) (g : GChild) : RGChild :=
   let m := match k, rp with
